@@ -230,7 +230,7 @@ def run_property(prop, tier, seed, impl="py", only=None):
             rep.errors.append("%s: every case is excluded by its own assumptions (vacuous harness)" % hid)
 
     # wall-clock budgets of one native sampling call (rejection sampling can be slow when assumptions rarely hold)
-    SEC = {"bounded": 1500, "other": 90} if tier != "thorough" else {"bounded": 7200, "other": 900}
+    SEC = {"bounded": 1500, "other": 90} if tier != "thorough" else {"bounded": 7200, "other": 150}
 
     def nbound(h):
         b = getattr(h, "bound", None)
